@@ -51,3 +51,32 @@ def run(ctx):
             ctx.fail("clean-stream-unread", inp, "nothing unread", o["final"].hex())
         for k, _ in c["parts"]:
             ctx.count("kind:" + k)
+    growing(ctx, rng)
+
+
+def growing(ctx, rng):
+    """A reader that reported the end of data is polled again after whole frames were appended to the stream: they
+    are delivered (iterator protocol and read() alike)."""
+    rl.install()
+    try:
+        n = 0
+        for _ in range(60 if ctx.quick() else 600):
+            a = rl.clean_stream(rng, k=rng.randrange(0, 4))
+            b = rl.clean_stream(rng, k=rng.randrange(1, 4))
+            fa, fb = b"".join(f for _, f in a), b"".join(f for _, f in b)
+            for use_iter in (True, False):
+                i1, i2, unread, err = rl.run_growing(fa, fb, use_iter)
+                n += 1
+                inp = {"op": "READ-GROWING", "first": fa.hex()[:300], "appended": fb.hex()[:300], "iterator": use_iter}
+                exp = rp.expected_clean(a + b, 7, True)
+                got = rp.items_key(i1 + i2)
+                if err:
+                    ctx.fail("growing-stream-raised", inp, "iteration ends", err)
+                elif got != exp:
+                    ctx.fail("appended-frames-not-delivered", inp, [(r.hex()[:40], p) for r, p in exp][:8], [(r.hex()[:40], p) for r, p in got][:8])
+                elif unread:
+                    ctx.fail("clean-stream-unread", inp, "nothing unread", "%d bytes" % unread)
+        ctx.evaluations += n
+        ctx.count("growing_stream_runs", n)
+    finally:
+        rl.uninstall()
